@@ -372,7 +372,9 @@ func ZeroDesc(t *Type) string { return zeroD(t).String() }
 
 func (r *renderer) markers(t *Type, acc map[string]bool) {
 	// all marker methods an implementation of interface t needs
-	acc["Is"+t.Name] = true
+	if !t.Bare {
+		acc["Is"+t.Name] = true
+	}
 	for _, e := range t.Embeds {
 		r.markers(e, acc)
 	}
@@ -412,7 +414,11 @@ func (r *renderer) renderDefs(f *file) {
 			for _, e := range t.Embeds {
 				f.p("\t%s\n", r.typeExpr(f, e))
 			}
-			f.p("\tVDesc() string\n\tIs%s()\n}\n\n", t.Name)
+			if t.Bare {
+				f.p("}\n\n")
+			} else {
+				f.p("\tVDesc() string\n\tIs%s()\n}\n\n", t.Name)
+			}
 			f.p("type %sAuto struct{ ID int }\n\n", t.Name)
 			f.p("func (x *%sAuto) VDesc() string { return \"#\" + %sItoa(x.ID) }\n", t.Name, f.vt())
 			ms := map[string]bool{}
